@@ -11,6 +11,7 @@ import WinterProofs.Lemmas.C20Batch
 import WinterProofs.Lemmas.C20Gen
 import WinterProofs.Lemmas.C20GenRlz
 import WinterProofs.Lemmas.C20GenFps
+import WinterProofs.Lemmas.C20GenWrap
 import WinterProofs.Lemmas.C20Div
 import Mathlib.Algebra.Field.Rat
 
@@ -435,5 +436,19 @@ theorem gen_fill_power_series_eq_model {α : Type} (O : Model.Poly.Ops α) (resu
       Model.Poly.fillPowerSeries O base result.length start ∧
     Gen.MathUtils.fill_power_series_ok O.toX result base start = true :=
   C20G.gen_fill_power_series_eq O result base start
+
+/-- ★ the regenerated wrappers reduce to their regenerated cores as the model's do: `syn_div` is `syn_div_in_place`
+    on a copy (value and no-panic condition; the model has one `synDiv` for both), `poly_from_roots` is
+    `fill_zero_roots` on `xs.len() + 1` fresh cells, failing additionally only if `xs.len() + 1` overflows.  The cores
+    `syn_div_in_place` / `fill_zero_roots` remain tied to the model by evaluation only (PARTIAL: no equality proof) -/
+theorem gen_wrappers_reduce_partial {F : Type} (X : Gen.FOpsX F) (p xs : List F) (a : Nat) (b : F) :
+    (Gen.Polynom.syn_div X p a b = Gen.Polynom.syn_div_in_place X p a b ∧
+      Gen.Polynom.syn_div_ok X p a b = Gen.Polynom.syn_div_in_place_ok X p a b) ∧
+    (Gen.Polynom.poly_from_roots X xs =
+        Gen.Polynom.fill_zero_roots X xs (List.replicate (xs.length + 1) (X.ofNat 0)) ∧
+      Gen.Polynom.poly_from_roots_ok X xs =
+        (decide (xs.length + 1 < 18446744073709551616) &&
+          Gen.Polynom.fill_zero_roots_ok X xs (List.replicate (xs.length + 1) (X.ofNat 0)))) :=
+  ⟨C20G.gen_syn_div_wrapper X p a b, C20G.gen_poly_from_roots_wrapper X xs⟩
 
 end WinterProofs.C20
